@@ -26,6 +26,12 @@
    pair on the deterministic loop with exactly TLC's packetisation; each
    call's result is compared with the specification's prediction
    (conformance) and judged by the property monitor (verdict).
+   Late redirection is a table of its own (policy "red"): canonical streams,
+   windows 1-3, packets one by one, the stream is redirected at every idle
+   point - so k chunks buffered in the stream, paused or not, m chunks / EOF
+   / CLOSE parked in the channel all occur - possibly after a read, possibly
+   twice (target replaced); quick samples it stratified by that buffer
+   state; every target kind in turn.
 3. End-to-end: a real server handler writes and calls exit(); run()/wait()
    must return complete output whenever a status or signal is reported.
 """
@@ -54,7 +60,8 @@ BASE = dict(DTs='{"out"}', MaxLen=4, MaxErr=0, Marks='{}', MaxMarks=0,
             Windows='{1, 2, 9}', Ns='{0, 1, 2, 4, 5}', ReadAll='TRUE',
             SepShapes=ALL_SHAPES, SepPer=1, MaxSepLen=2,
             Regexes='{"re0", "reK"}', SepFix='TRUE', ReMax=REMAX,
-            MaxBatch=2, MaxCalls=0, Proc='FALSE', Redir='FALSE',
+            MaxBatch=2, MaxCalls=0, Proc='FALSE', Redir='FALSE', MaxRedir=1,
+            Canon='FALSE',
             Policy='"any"', PrintAt=0, SearchBug='FALSE', CloseBug='FALSE',
             ResumeFix='TRUE', CollectFix='TRUE')
 DRAIN = dict(High=4, Low=1, Win=3, Sizes='{1, 2, 5}', MaxBuf=12, MaxOps=0,
@@ -165,6 +172,20 @@ def jobs_for(tier):
                           Ns='{1, 3}' if q else '{1, 2, 4, 5}',
                           **FEW_SEPS)),
                  ['ChunkIndependent'], cases=True, workers=4, heap='6g'))
+    # late redirection: canonical streams, tiny windows, every idle point
+    red = dict(Policy='"red"', Canon='TRUE', Proc='TRUE', Redir='TRUE',
+               Windows='{1, 2, 3}', Ns='{1}', ReadAll='FALSE', MaxBatch=1,
+               MaxCalls=1, PrintAt=40, **NL_ONLY)
+    J.append(Job('tab_redA', 'Stream',
+                 S(DTs='{"out", "err"}', MaxLen=3 if q else 4, MaxErr=1,
+                   MaxRedir=1, **red),
+                 ['ChunkIndependent', 'NothingLost', 'AllDataThenEOF'],
+                 cases=True, workers=4, heap='6g'))
+    J.append(Job('tab_redB', 'Stream',
+                 S(DTs='{"out"}', MaxLen=3 if q else 4, MaxErr=0, MaxRedir=2,
+                   **red),
+                 ['ChunkIndependent', 'NothingLost', 'AllDataThenEOF'],
+                 cases=True, workers=2, heap='4g'))
     sim = dict(MaxLen=5 if q else 6, MaxBatch=3, MaxCalls=8, PrintAt=24,
                Windows='{1, 2, 3, 9}',
                Ns='{0, 1, 2, 6}' if q else '{0, 1, 2, 3, 5, 6, 7}', **seps)
@@ -184,7 +205,8 @@ def jobs_for(tier):
     J.append(Job('sim_proc', 'Stream', S(**pr),
                  ['ChunkIndependent', 'NothingLost'], cases=True, sim=n,
                  depth=26, workers=2))
-    J.append(Job('sim_redir', 'Stream', S(**dict(pr, Redir='TRUE')),
+    J.append(Job('sim_redir', 'Stream',
+                 S(**dict(pr, Redir='TRUE', MaxRedir=2)),
                  ['ChunkIndependent', 'NothingLost', 'AllDataThenEOF'],
                  cases=True, sim=n, depth=26, workers=2))
     J.append(Job('sim_drain', 'Drain', D(MaxOps=12, PrintAt=12), ['DrainSound'],
@@ -298,6 +320,14 @@ REGRESSIONS = [
        ['call', 'out', 'until', 0, ['lit', [['a', 'b', 'n'], ['b']]], []],
        ['emit', 'eof', 'out', []],
        ['run', [['out', 'inc', ['n', 'a'], [], '-']]]]]),
+    ('late redirection: two chunks buffered at the window, one parked',
+     [2, [['a', 'b', 'n'], []],
+      [['emit', 'data', 'out', ['a']], ['run', []],
+       ['emit', 'data', 'out', ['b']], ['run', []],
+       ['emit', 'data', 'out', ['n']], ['run', []],
+       ['redirect', 'out', []],
+       ['emit', 'eof', 'out', []], ['run', []]],
+      [[[], ['a', 'b', 'n']], [[], []]]]),
     ('separator spanning a chunk boundary, leftover kept',
      [9, [['n', 'a', 'b', 'a', 'b']],
       [['call', 'out', 'until', 0, AB, []],
@@ -393,7 +423,7 @@ class Replayer:
         opts = dict(text=bool(idx % 2),
                     api='session' if pure and idx % 3 == 0 else 'process',
                     remax=REMAX, seqtype='list' if idx % 4 < 2 else 'tuple')
-        if world == 'sim_redir':
+        if world in ('sim_redir', 'tab_redA', 'tab_redB'):
             opts['target'] = TARGETS[idx % len(TARGETS)]
         try:
             res = self.stream.replay(self.h, case, **opts)
@@ -447,6 +477,39 @@ def select_tab(stream, cases, quick, seed, cap):
     if len(rest) > room:
         rest = rnd.sample(rest, room)
     return pri + rest, len(pri)
+
+
+def select_red(cases, quick, seed, cap):
+    """Late-redirection tables: stratified by the buffer state the (first)
+    redirection meets - (chunks buffered, paused, chunks parked, EOF parked,
+    CLOSE parked, target being replaced) - so that every state class that
+    TLC reaches is replayed."""
+    rnd = random.Random(seed)
+    if not quick:
+        cap *= 12
+    if len(cases) <= cap:
+        return cases
+    classes = {}
+    for c in cases:
+        key = tuple(tuple(l[3]) + (l[1],) for l in c[2] if l[0] == 'redirect')
+        classes.setdefault(key, []).append(c)
+    keys = sorted(classes, key=repr)
+    for k in keys:
+        rnd.shuffle(classes[k])
+    out = []
+    i = 0
+    while len(out) < cap:
+        progressed = False
+        for k in keys:
+            if i < len(classes[k]):
+                out.append(classes[k][i])
+                progressed = True
+                if len(out) >= cap:
+                    break
+        if not progressed:
+            break
+        i += 1
+    return out
 
 
 def select(cases, quick, seed, cap, stride=1):
@@ -548,10 +611,11 @@ def main(ctx):
         total += len(scs)
 
         # ---- TLC generated cases ----
-        plan = [('tab_rfl9', 4000, 2), ('tab_rfl2', 3000, 2),
-                ('tab_dfl', 2500, 3),
-                ('tab_marks', 2500, 1),
-                ('sim_two', 1500, 1), ('sim_marks', 1500, 1),
+        plan = [('tab_rfl9', 3200, 2), ('tab_rfl2', 2400, 2),
+                ('tab_dfl', 2000, 3),
+                ('tab_marks', 2000, 1),
+                ('tab_redA', 1500, 1), ('tab_redB', 500, 1),
+                ('sim_two', 1100, 1), ('sim_marks', 1100, 1),
                 ('sim_proc', 1200, 1), ('sim_redir', 1200, 1)]
         for world, cap, stride in plan:
             tw = time.time()
@@ -564,7 +628,9 @@ def main(ctx):
             cases = job.case_list
             ctx.require(len(cases) > 0, f'{world}: TLC produced no cases\n' +
                         res.output[-1500:])
-            if world.startswith('tab_'):
+            if world.startswith('tab_red'):
+                sel = select_red(cases, quick, ctx.seed, cap)
+            elif world.startswith('tab_'):
                 sel, npri = select_tab(stream, cases, quick, ctx.seed, cap)
                 ctx.notes.append(f'{world}: {npri} of the replayed cases have '
                                  f'a packet boundary inside a separator '
